@@ -10,10 +10,12 @@ import (
 	"go/importer"
 	"go/token"
 	"go/types"
+	"io"
 	"math/rand"
 	"os"
 	"os/exec"
 	"path/filepath"
+	"runtime"
 	"strings"
 	"sync"
 	"time"
@@ -27,6 +29,42 @@ func init() { register("C18", runC18) }
 // handing out shared nodes (nil comparisons, range over integers and maps, any/map member
 // sugar, overloaded println, bool casts, zero literals, unsafe helpers)
 func c18Build(f *irFunc, imp types.Importer, seed int64) (out string, fault string) {
+	return c18BuildTo(f, imp, seed, nil)
+}
+
+// parkWriter calls hook inside its at-th Write: the goroutine is then suspended in the middle of
+// Package.WriteTo, inside a callback gogen makes into client code
+type parkWriter struct {
+	buf   *bytes.Buffer
+	n, at int
+	hook  func()
+}
+
+func (w *parkWriter) Write(p []byte) (int, error) {
+	if w.n == w.at && w.hook != nil {
+		w.hook()
+	}
+	w.n++
+	return w.buf.Write(p)
+}
+
+// parkImporter calls hook inside its first Import: the goroutine is suspended in the middle of a
+// builder operation that loads a package
+type parkImporter struct {
+	inner types.Importer
+	hook  func()
+}
+
+func (p *parkImporter) Import(path string) (*types.Package, error) {
+	if p.hook != nil {
+		h := p.hook
+		p.hook = nil
+		h()
+	}
+	return p.inner.Import(path)
+}
+
+func c18BuildTo(f *irFunc, imp types.Importer, seed int64, mkWriter func(*bytes.Buffer) io.Writer) (out string, fault string) {
 	defer func() {
 		if e := recover(); e != nil {
 			fault = fmt.Sprint(e)
@@ -81,7 +119,11 @@ func c18Build(f *irFunc, imp types.Importer, seed int64) (out string, fault stri
 		}
 	}
 	var buf bytes.Buffer
-	if err := pkg.WriteTo(&buf); err != nil {
+	var dst io.Writer = &buf
+	if mkWriter != nil {
+		dst = mkWriter(&buf)
+	}
+	if err := pkg.WriteTo(dst); err != nil {
 		return "", "WriteTo: " + err.Error()
 	}
 	for _, n := range pkg.Types.Scope().Names() {
@@ -151,6 +193,56 @@ func c18Child(a *runArgs) error {
 		base[i] = build(i, imp)
 	}
 	mismatches, builds := 0, 0
+	// controlled interleavings: goroutine A is suspended inside a callback into client code (the k-th
+	// Write of the destination writer during WriteTo, or the importer's Import during a builder
+	// operation) while goroutine B builds and writes a different package completely, on one P so that
+	// per-P caches (sync.Pool) are shared; both outputs must equal their sequential builds
+	{
+		old := runtime.GOMAXPROCS(1)
+		impA, impB := newImp(), newImp()
+		nPairs := 12
+		if a.Tier == "thorough" {
+			nPairs = 60
+		}
+		for k := 0; k < nPairs; k++ {
+			i, j := r.Intn(nProg), r.Intn(nProg)
+			if i == j {
+				j = (j + 1) % nProg
+			}
+			startB, doneB := make(chan struct{}), make(chan string)
+			go func() {
+				<-startB
+				doneB <- build(j, impB)
+			}()
+			var outB string
+			hook := func() { startB <- struct{}{}; outB = <-doneB }
+			var outA, fault string
+			if k%4 == 3 {
+				outA, fault = c18BuildTo(progs[i], &parkImporter{inner: impA, hook: hook}, a.Seed+int64(i), nil)
+			} else {
+				outA, fault = c18BuildTo(progs[i], impA, a.Seed+int64(i), func(b *bytes.Buffer) io.Writer {
+					return &parkWriter{buf: b, at: k % 3, hook: hook}
+				})
+			}
+			if fault != "" {
+				outA = "FAULT: " + fault
+			}
+			if outB == "" { // the hook was never reached (no Write / no Import): run B now
+				startB <- struct{}{}
+				outB = <-doneB
+			}
+			builds += 2
+			if outA != base[i] {
+				mismatches++
+				fmt.Printf("MISMATCH %d (suspended inside a callback while program %d was built)\n", i, j)
+			}
+			if outB != base[j] {
+				mismatches++
+				fmt.Printf("MISMATCH %d (built while program %d was suspended inside a callback)\n", j, i)
+			}
+		}
+		runtime.GOMAXPROCS(old)
+	}
 	for round := range res {
 		for i := range progs {
 			builds++
@@ -170,7 +262,7 @@ func runC18(a *runArgs) error {
 	}
 	m := &meta{Property: "C18", Seed: a.Seed, Tier: a.Tier, PerShard: 1,
 		Strata: map[string]int{}, Dist: map[string]int{}, Known: map[string]int{},
-		Rule: "programs = random statement bodies (C10/C16 generator) plus a function exercising nil comparisons, integer/map range, any/map member sugar, bool casts, zero literals, overloaded println, constant folding; each built sequentially (baseline) and then concurrently on goroutines with its own package object and importer under the Go race detector; distinct = distinct programs; all non-trivial"}
+		Rule: "programs = random statement bodies (C10/C16 generator) plus a function exercising nil comparisons, integer/map range, any/map member sugar, bool casts, zero literals, overloaded println, constant folding; each built sequentially (baseline) and then concurrently on goroutines with its own package object and importer under the Go race detector, plus controlled interleavings (one goroutine suspended inside the k-th Write of WriteTo or inside the importer while another builds and writes a different package on the same P); distinct = distinct programs; all non-trivial"}
 	exe, _ := os.Executable()
 	raceExe := filepath.Join(filepath.Dir(exe), "harness_race")
 	// rebuild the race-instrumented harness against the current tree (cached by the go tool when nothing changed)
